@@ -224,10 +224,16 @@ def apply(eng, rule: Rule, fr, topology, enter, leave, root):
         body()
         del eng.pc[mark:]
 
-    # ---- the value predicates must not read state that the callbacks may change (lean/TraverseRule.lean takes Qe / Ql as
-    #      predicates of (node, value) only): evaluated before and after a havoc they must be the same formula
-    def independent(which, fn, kind):
+    # ---- value predicates that read state the callbacks may change must be STABLE (lean/TraverseRule.lean: once true of an
+    #      entered / left node and a value they stay true through every later callback call).  A predicate that is the same
+    #      formula before and after a havoc of that state does not read it: nothing to prove.  Otherwise each step proves
+    #      `<step>/stable/<which>`: for an arbitrary node y entered (left) BEFORE the step and an arbitrary value w,
+    #      Q(y, w) in the state before the callback implies Q(y, w) in the state after it.
+    dependent = {}
+
+    def probe(which, fn, kind):
         if fn is _TRUE:
+            dependent[which] = False
             return
 
         def body():
@@ -235,15 +241,25 @@ def apply(eng, rule: Rule, fr, topology, enter, leave, root):
             q1 = _zb(fn(eng, vars_now(), xs.z, val, ctx))
             havoc()
             q2 = _zb(fn(eng, vars_now(), xs.z, val, ctx))
-            if not z3.eq(z3.simplify(q1), z3.simplify(q2)):
-                eng.prove(f"{lab}/rule/{which}-does-not-depend-on-state-the-callbacks-change", q1 == q2, "annotation")
+            dependent[which] = not z3.eq(z3.simplify(q1), z3.simplify(q2))
 
         phase(body)
 
-    if enter is not None:
-        independent("enter-value-predicate", rule.Qe, rule.enter_kind)
-    if leave is not None:
-        independent("leave-value-predicate", rule.Ql, rule.leave_kind)
+    probe("enter-value-predicate", rule.Qe, rule.enter_kind) if enter is not None else dependent.setdefault("enter-value-predicate", False)
+    probe("leave-value-predicate", rule.Ql, rule.leave_kind) if leave is not None else dependent.setdefault("leave-value-predicate", False)
+
+    def stability_before(ENT, LEFT):
+        """evaluate the state-dependent value predicates for an arbitrary earlier node / value in the state BEFORE the callback"""
+        out = []
+        for which, fn, kind, members in (("enter-value-predicate", rule.Qe, rule.enter_kind, ENT), ("leave-value-predicate", rule.Ql, rule.leave_kind, LEFT)):
+            if dependent.get(which):
+                y, w = fresh("int", "earlier"), _mk_value(eng, kind, "earlier_val")
+                out.append((which, fn, y, w, z3.And(sel(members, y.z), _zb(fn(eng, vars_now(), y.z, w, ctx)))))
+        return out
+
+    def stability_after(step, pending):
+        for which, fn, y, w, before in pending:
+            eng.prove(f"{lab}/{step}/stable/{which}-of-earlier-nodes-still-holds", z3.Implies(before, _zb(fn(eng, vars_now(), y.z, w, ctx))), "invariant")
 
     # ---- enter step
     if enter is not None:
@@ -267,12 +283,14 @@ def apply(eng, rule: Rule, fr, topology, enter, leave, root):
                 qe = rule.Qe(eng, vars_now(), par, pre, ctx)
                 for part in ([f for _, f in qe] if isinstance(qe, (list, tuple)) else [qe]):
                     eng.assume(_zb(part))
+            pending = stability_before(ENT, LEFT)
             ret = eng.call(enter, [xs, pre], {})
             eng.ghost["traverse-last-call"] = dict(x=xz, args=pre, ret=ret, ENT=ENT, LEFT=LEFT)
             if rule.ghost_enter is not None:
                 ctx.ret = ret  # the value the real callback returned (ghost code may record it)
                 rule.ghost_enter(eng, vars_now(), xz, ctx)
             ENT2 = z3.Store(ENT, xz, z3.BoolVal(True))
+            stability_after("enter", pending)
             prove_J("enter/invariant-preserved", ENT2, LEFT)
             _prove_parts(eng, f"{lab}/enter/returned-value-as-specified", rule.Qe(eng, vars_now(), xz, ret, ctx))
 
@@ -313,6 +331,7 @@ def apply(eng, rule: Rule, fr, topology, enter, leave, root):
                 ql = rule.Ql(eng, v, kid(xz, k), get(k), ctx)
                 for part in ([f for _, f in ql] if isinstance(ql, (list, tuple)) else [ql]):  # one hypothesis per conjunct
                     eng.assume(z3.ForAll([k], z3.Implies(z3.And(0 <= k, k < nkids(xz)), _zb(part))))
+            pending = stability_before(ENT, LEFT)
             ret = eng.call(leave, [xs, args], {})
             if owned_check:
                 eng.prove(f"{lab}/leave/returned-value-owns-its-mutable-parts", _zb(_owned(ret, mark)), "frame")
@@ -321,6 +340,7 @@ def apply(eng, rule: Rule, fr, topology, enter, leave, root):
                 ctx.ret, ctx.args = ret, args
                 rule.ghost_leave(eng, vars_now(), xz, ctx)
             LEFT2 = z3.Store(LEFT, xz, z3.BoolVal(True))
+            stability_after("leave", pending)
             prove_J("leave/invariant-preserved", ENT, LEFT2)
             _prove_parts(eng, f"{lab}/leave/returned-value-as-specified", rule.Ql(eng, vars_now(), xz, ret, ctx))
 
